@@ -211,6 +211,7 @@ fn session(ctx: &Ctx, out: &mut Outcome, run_seed: u64, r: &mut Rng) {
         allow_large: false,
         tail_ticks: 5,
         liveness: false,
+        flood: false,
         max_len: 6000,
     };
     let mut mons: Vec<Box<dyn Monitor>> = vec![Box::new(SizeMonitor { prop: "C13" }), Box::new(CoverageMonitor::new())];
